@@ -351,6 +351,12 @@ def rule_f(ck, u, ub, so, P):
             if not (eng2.entails(facts, L(off) - o) and eng2.entails(facts, o + L(gcnt) - L(used))):
                 bad = 'source may write [data+(%s), +%s), outside the auxiliary window [offset, used)' % (o, fmt(gcnt))
                 break
+            # the count is computed in size_t: a difference whose subtrahend may exceed the minuend wraps to a huge count
+            wrap = [t for t in sym.subterms(gcnt) if t[0] == '-' and not eng2.entails(facts, L(t[2]) - L(t[1]))]
+            if wrap:
+                bad = ('the count handed to the source, %s, contains the size_t difference %s whose operands are not ordered on this path '
+                       '(the local buffer copy no longer satisfies offset <= used): it wraps to a huge count' % (fmt(gcnt), fmt(wrap[0])))
+                break
             if fn == 'sts_atmost_aux' and not eng2.entails(facts, L(gcnt) - L(('v', 'n'))):
                 bad = 'asks the source for %s octets, not bounded by n (the size field that is limited is never read by sts_some_aux)' % fmt(gcnt)
                 break
